@@ -169,6 +169,40 @@ theorem differs_empty_argument_next_to_paste :
   exact differs_of_eval defs toks 12 12 (.ok (loc [.id "PQ"])) [.id "P", .id "Q"] (by decide) (by decide +kernel)
     (by intro out ho; cases ho; decide)
 
+
+theorem agree_of_eval (defs : List Macro) (toks out : List PTok) (n fuel : Nat) (ks : List Tok)
+    (hm : applyLoopF n (allEnabled defs) toks SearchPos.start = some (.ok out))
+    (hs : refToks defs fuel toks = .ok ks) (heq : ks = ppTokens out) : Agree defs toks := by
+  obtain ⟨r0, h1, h2⟩ := refToks_ok hs
+  exact ⟨out, fuel, r0, model_eval n defs toks _ hm, h1, by rw [h2, heq]⟩
+
+/-- **Invocations completed after the end of an expansion on which rssl and C agree** (the counterpart of
+`differs_painted_function_name_reinvoked` / `differs_function_name_before_vanished_macro`; the universal statement
+about the model is `trailing_function_name_is_invoked`):
+`#define A(X) { X }`, `#define M(X) A X`: `M()(6)` gives `{ 6 }` (the expansion of `M()` is `A` followed by the blank
+that preceded the empty argument), and `M()(6)(1)`; `#define N A`: `N(7)`; `#define S(X) X * 2`,
+`#define AP(F,X) F X`: `AP(S,)(5)` gives `5 * 2`. -/
+theorem agrees_on_invocation_completed_after_expansion :
+    let A : Macro := ⟨"A", true, 1, loc [.punct "{", .ws, .arg 0, .ws, .punct "}"]⟩
+    let M : Macro := ⟨"M", true, 1, loc [.id "A", .ws, .arg 0]⟩
+    let N : Macro := ⟨"N", false, 0, loc [.id "A"]⟩
+    let S : Macro := ⟨"S", true, 1, loc [.arg 0, .ws, .punct "*", .ws, .int "2"]⟩
+    let AP : Macro := ⟨"AP", true, 2, loc [.arg 0, .ws, .arg 1]⟩
+    Agree [A, M] (loc [.id "M", .lparen, .rparen, .lparen, .int "6", .rparen]) ∧
+    Agree [A, M] (loc [.id "M", .lparen, .rparen, .ws, .lparen, .int "6", .rparen, .lparen, .int "1", .rparen]) ∧
+    Agree [A, N] (loc [.id "N", .lparen, .int "7", .rparen]) ∧
+    Agree [S, AP] (loc [.id "AP", .lparen, .id "S", .comma, .rparen, .lparen, .int "5", .rparen]) := by
+  intro A M N S AP
+  refine ⟨?_, ?_, ?_, ?_⟩
+  · exact agree_of_eval _ _ (loc [.punct "{", .ws, .int "6", .ws, .punct "}"]) 12 12
+      [.punct "{", .int "6", .punct "}"] (by decide) (by decide +kernel) (by decide)
+  · exact agree_of_eval _ _ (loc [.punct "{", .ws, .int "6", .ws, .punct "}", .lparen, .int "1", .rparen]) 12 12
+      [.punct "{", .int "6", .punct "}", .lparen, .int "1", .rparen] (by decide) (by decide +kernel) (by decide)
+  · exact agree_of_eval _ _ (loc [.punct "{", .ws, .int "7", .ws, .punct "}"]) 12 12
+      [.punct "{", .int "7", .punct "}"] (by decide) (by decide +kernel) (by decide)
+  · exact agree_of_eval _ _ (loc [.int "5", .ws, .punct "*", .ws, .int "2"]) 12 12
+      [.int "5", .punct "*", .int "2"] (by decide) (by decide +kernel) (by decide)
+
 /-- the other side of the boundary, next to `differs_function_name_before_vanished_macro`: the same invocation
 written in the text (`F E (1)`, no enclosing expansion) and inside an argument (`ID(F E)(1)`) is treated alike by
 rssl and C -/
